@@ -92,6 +92,11 @@ package testing
 //@   modifies t.Iteration, t.failed, t.teardownFailed, t.tearingDown, t.teardownStack
 //@   ensures [clean] !t.failed && !t.teardownFailed && !t.tearingDown && len(t.teardownStack) == 0 && t.Iteration == iter && wfT(t)
 //@
+//@ func (*T).Reset @taken
+//@   props C02 C03
+//@   trusted frame taken from the verified base contract: resetting a handle touches only the handle
+//@   modifies t.Iteration, t.failed, t.teardownFailed, t.tearingDown, t.teardownStack
+//@
 //@ func (*T).Cleanup
 //@   props C06
 //@   requires wfT(t) && f != nil
